@@ -140,6 +140,40 @@ def record_corruptions():
     open(p, "w").write("\n".join(ls) + "\n")
     n, verd = fam_filters.judge(p, 1)
     expect(any(x[1] in ("accept", "workload-selection") for x in verd), "filter record with a flipped Accept bit rejected")
+    # Mode S records: one changed field in the observation
+    def judge_records(module, path):
+        dj = vlib.tlc_dir(None)
+        cfgp2 = os.path.join(dj, "m.cfg")
+        open(cfgp2, "w").write(fam_tree.MODES_CFG)
+        vlib.run_parallel([(vlib.tlc_argv(dj, module, cfgp2, workers=1, heap="2g"), path + ".tlc", {"VT_TRACE": path}, dj)], timeout=300)
+        return vlib.verdicts(open(path + ".tlc").read())
+    tb = os.path.join(sc, "self-treebeh.ndjson")
+    open(tb, "w").write('{"stim":["SB0","EM","CL0","SB1"],"hist":[]}\n')
+    p = os.path.join(sc, "self-modestree.ndjson")
+    vlib.run_harness(["modestree", "-in", tb, "-out", p])
+    r = json.loads(open(p).read().split("\n")[0])
+    r["pred"] = json.loads(json.dumps(r["obs"]))          # the real observation as the prediction: accepted
+    open(p, "w").write(json.dumps(r) + "\n")
+    expect(not judge_records("ModeSTreeRecords.tla", p), "mode S tree record accepted as recorded (observation = prediction)")
+    r["obs"][1]["nodes"][0]["log"] = []                    # the first subscriber lost the event
+    open(p, "w").write(json.dumps(r) + "\n")
+    v = judge_records("ModeSTreeRecords.tla", p)
+    expect(any(x[1] == "tree-log-differs" for x in v), "mode S tree record with a lost event rejected")
+    r["obs"][1]["nodes"][0]["log"] = [1]
+    r["obs"][3]["nodes"][1]["done"] = True                 # a clone that stopped without being closed
+    open(p, "w").write(json.dumps(r) + "\n")
+    v = judge_records("ModeSTreeRecords.tla", p)
+    expect(any(x[1] == "tree-done-differs" for x in v), "mode S tree record with a node stopped by itself rejected")
+    mb = os.path.join(sc, "self-monbeh.ndjson")
+    open(mb, "w").write('{"stim":["SR","PB","RL"],"preds":[[{"cb":[0],"active":true,"done":false},{"cb":[0],"active":true,"done":false},{"cb":[0,1],"active":true,"done":false}]]}\n')
+    p = os.path.join(sc, "self-modesmon.ndjson")
+    vlib.run_harness(["modesmon", "-in", mb, "-out", p])
+    expect(not judge_records("ModeSMonRecords.tla", p), "mode S monitor record accepted as recorded")
+    r = json.loads(open(p).read().split("\n")[0])
+    r["obs"][2]["cb"] = [0, 1, 1]
+    open(p, "w").write(json.dumps(r) + "\n")
+    v = judge_records("ModeSMonRecords.tla", p)
+    expect(bool(v), "mode S monitor record with a repeated callback rejected: %s" % sorted(set(x[1] for x in v)))
 
 
 if __name__ == "__main__":
